@@ -1,5 +1,6 @@
 import Psa.NamesProofs
 import Psa.QuoteMain
+import Psa.NamesClean
 import Psa.RenderProofs
 import Psa.EvalProofs
 import Psa.Generated.Tables
@@ -122,6 +123,25 @@ theorem C13_detail_names_only (T : Tables) (relax : Bool) (r : RevId) (p : Pod)
   simp only [runRev, render, ho, Bool.false_eq_true, ↓reduceIte] at hs
   exact detail_segs r.kind _ hc s hs
 
+/-- **The name half of `Clean` comes from the pod.** Container and volume names that contain no quote byte — DNS labels, which
+    is what API validation admits (`dns_noQ`) — give offender lists without one, for all twenty-five revisions, every pod,
+    relaxation on or off. What remains a hypothesis of `C13_detail_names_only` is only that the *values* a control quotes
+    (capability names, profile types, sysctl names, … taken verbatim from the pod) contain no quote byte. -/
+theorem C13_names_clean (T : Tables) (relax : Bool) (r : RevId) (p : Pod) (h : PodNamesClean p) : NamesOK (run T relax r p) :=
+  run_namesOK T relax r p h
+
+theorem C13_detail_names_only_of_pod (T : Tables) (relax : Bool) (r : RevId) (p : Pod)
+    (h : (runRev T relax r p).allowed = false) (hn : PodNamesClean p)
+    (hv : (∀ x ∈ (run T relax r p).values, noQ x) ∧ (∀ x ∈ (run T relax r p).flags, noQ x) ∧ (∀ x ∈ (run T relax r p).extra, noQ x))
+    (s : Str) (hs : s ∈ quotedSegs (runRev T relax r p).detail) :
+    s ∈ r.kind.named (run T relax r p) ∨ s ∈ r.kind.quotedValues (run T relax r p) :=
+  C13_detail_names_only T relax r p h
+    ⟨(run_namesOK T relax r p hn).cs, (run_namesOK T relax r p hn).cs2, (run_namesOK T relax r p hn).vols, hv.1, hv.2.1, hv.2.2⟩ s hs
+
+/-- non-vacuity: DNS-label names are clean -/
+example : PodNamesClean { containers := [{ name := b!"app-1" }, { name := b!"side.car" }], volumes := [{ name := b!"data" }] } := by
+  refine ⟨?_, ?_⟩ <;> (intro x hx; simp [Pod.visit] at hx; rcases hx with rfl | rfl <;> decide)
+
 /-- non-vacuity: the quoted segments of a concrete detail, computed; the compliant container "ok" is not among them -/
 example : quotedSegs (runRev Generated.tables false .capsBaseline0
       { containers := [{ name := b!"a", sc := some { caps := some { add := [b!"NET_ADMIN", b!"CHOWN"] } } }, { name := b!"ok" },
@@ -153,5 +173,7 @@ theorem C13_volume_names : Generated.volBadKinds = badVolKinds ∧ Generated.vol
 #print axioms C13_restrictedVolumes_detail_names
 #print axioms C13_detail_names_offenders
 #print axioms C13_detail_names_only
+#print axioms C13_names_clean
+#print axioms C13_detail_names_only_of_pod
 #print axioms C13_volume_names
 end PSA.Props
